@@ -27,7 +27,7 @@ def main():
     if err.strip(): print('stderr:', err[-1500:])
     groups = collections.Counter(); ex = {}
     for r in recs:
-        o = r.get('oracle') or r.get('spec')
+        o = r.get('oracle')
         if o:
             key = (r.get('kind', '?'), re.sub(r'\d+', 'N', o)[:90], r.get('sig', ''))
             groups[key] += 1
